@@ -909,8 +909,12 @@ def set_transit_compartments(model: Model, n: int, keep_depot: bool = True):
         dosing_comp = cs.dosing_compartments[0]
         comp = dosing_comp
         cb = CompartmentalSystemBuilder(cs)
+        # A single transit compartment is regarded as a depot and could already use the name
+        offset = 0
+        while any(f'TRANSIT{i + offset}' in cs.compartment_names for i in range(1, n + 1)):
+            offset += 1
         while n > 0:
-            new_comp = Compartment.create(f'TRANSIT{n}')
+            new_comp = Compartment.create(f'TRANSIT{n + offset}')
             cb.add_compartment(new_comp)
             n -= 1
             cb.add_flow(new_comp, comp, rate)
